@@ -249,13 +249,92 @@ fn gen_pair(rng: &mut Rng) -> Pair {
 // ------------------------------------------------------------------------------------------
 // the menu
 
-pub const N_CASES: usize = 46;
+const N_BASE: usize = 46;
 
-pub fn case_name(i: usize) -> &'static str {
-    CASE_NAMES[i]
+pub fn n_cases() -> usize {
+    N_BASE + EXTRA.len()
 }
 
-const CASE_NAMES: [&str; N_CASES] = [
+pub fn case_name(i: usize) -> &'static str {
+    if i < N_BASE {
+        CASE_NAMES[i]
+    } else {
+        EXTRA[i - N_BASE].0
+    }
+}
+
+type CaseFn = fn(&mut Probe, &mut Rng, usize);
+
+fn solo<T: HeapSize>(p: &mut Probe, rng: &mut Rng, gen: fn(&mut Rng) -> T) {
+    let v = gen(rng);
+    p.exact(&v, (0, 0));
+}
+
+fn invec<T: lru_mem::MemSize>(p: &mut Probe, rng: &mut Rng, steps: usize, gen: fn(&mut Rng) -> T) {
+    hist_vec(p, rng, steps, &gen);
+}
+
+fn inheap_len<T: lru_mem::MemSize>(p: &mut Probe, rng: &mut Rng, gen: fn(&mut Rng) -> T) {
+    // boxed slice of wrappers: the bulk (exact-size) helper path without spare capacity
+    let v = gen_vec(rng, &gen).into_boxed_slice();
+    p.exact(&v, (v.len(), v.len()));
+}
+
+macro_rules! wrapper_cases {
+    ($( $name:literal => $gen:expr ),+ $(,)?) => {
+        &[ $(
+            ($name, (|p, r, _s| solo(p, r, $gen)) as CaseFn),
+            (concat!("Vec<", $name, ">"), (|p, r, s| invec(p, r, s, $gen)) as CaseFn),
+            (concat!("Box<[", $name, "]>"), (|p, r, _s| inheap_len(p, r, $gen)) as CaseFn),
+        )+ ]
+    };
+}
+
+/// every wrapper around owning types, measured standalone (per-value path) and as elements of
+/// a Vec / boxed slice (bulk helper paths)
+static EXTRA: &[(&str, CaseFn)] = wrapper_cases![
+    "(String,)" => |r| (gen_string(r),),
+    "(String, String)" => |r| (gen_string(r), gen_string(r)),
+    "(String, Vec<u8>, String)" => |r| (gen_string(r), gen_bytes(r), gen_string(r)),
+    "(String x4)" => |r| (gen_string(r), gen_string(r), gen_string(r), gen_string(r)),
+    "(String x5)" => |r| (gen_string(r), gen_string(r), gen_string(r), gen_string(r), gen_string(r)),
+    "(String x6)" => |r| (gen_string(r), gen_string(r), gen_string(r), gen_string(r), gen_string(r), gen_string(r)),
+    "(String x7)" => |r| (gen_string(r), gen_string(r), gen_string(r), gen_string(r), gen_string(r), gen_string(r), gen_string(r)),
+    "(String x8)" => |r| (gen_string(r), gen_string(r), gen_string(r), gen_string(r), gen_string(r), gen_string(r), gen_string(r), gen_string(r)),
+    "(String x9)" => |r| (gen_string(r), gen_string(r), gen_string(r), gen_string(r), gen_string(r), gen_string(r), gen_string(r), gen_string(r), gen_string(r)),
+    "(String x10)" => |r| (gen_string(r), gen_string(r), gen_string(r), gen_string(r), gen_string(r), gen_string(r), gen_string(r), gen_string(r), gen_string(r), gen_string(r)),
+    "(u8, String, u16, Vec<u8>)" => |r| (1u8, gen_string(r), 2u16, gen_bytes(r)),
+    "[String; 2]" => |r| [gen_string(r), gen_string(r)],
+    "[String; 3]" => |r| [gen_string(r), gen_string(r), gen_string(r)],
+    "[Vec<u8>; 0]" => |_r| { let a: [Vec<u8>; 0] = []; a },
+    "[(String, Vec<u8>); 2]" => |r| [(gen_string(r), gen_bytes(r)), (gen_string(r), gen_bytes(r))],
+    "Option<String>*" => |r| if r.chance(1, 4) { None } else { Some(gen_string(r)) },
+    "Option<Vec<String>>" => |r| if r.chance(1, 4) { None } else { Some(gen_vec(r, &gen_string)) },
+    "Result<String, Vec<u8>>*" => |r| if r.bool() { Ok::<String, Vec<u8>>(gen_string(r)) } else { Err(gen_bytes(r)) },
+    "Result<u8, String>" => |r| if r.bool() { Ok::<u8, String>(3) } else { Err(gen_string(r)) },
+    "Wrapping<String>" => |r| Wrapping(gen_string(r)),
+    "Wrapping<Vec<u8>>" => |r| Wrapping(gen_bytes(r)),
+    "Wrapping<Box<str>>" => |r| Wrapping(gen_string(r).into_boxed_str()),
+    "Range<String>*" => |r| gen_string(r)..gen_string(r),
+    "RangeFrom<String>" => |r| gen_string(r)..,
+    "RangeTo<String>" => |r| ..gen_string(r),
+    "RangeInclusive<Vec<u8>>" => |r| gen_bytes(r)..=gen_bytes(r),
+    "RangeToInclusive<Vec<u8>>" => |r| ..=gen_bytes(r),
+    "Box<String>" => |r| Box::new(gen_string(r)),
+    "Box<(String, Vec<u8>)>" => |r| Box::new((gen_string(r), gen_bytes(r))),
+    "Box<[u8]>" => |r| gen_bytes(r).into_boxed_slice(),
+    "Box<str>*" => |r| gen_string(r).into_boxed_str(),
+    "Mutex<Vec<u8>>" => |r| Mutex::new(gen_bytes(r)),
+    "RwLock<String>" => |r| RwLock::new(gen_string(r)),
+    "OsString*" => gen_osstring,
+    "PathBuf*" => gen_pathbuf,
+    "CString*" => gen_cstring,
+    "BinaryHeap<String>*" => |r| gen_heap(r, &gen_string),
+    "Vec<u64>" => |r| gen_vec(r, &|r| r.next_u64()),
+    "Option<Wrapping<(String, Option<Box<[u16]>>)>>" => |r| if r.chance(1, 5) { None } else { Some(Wrapping((gen_string(r), if r.bool() { Some(gen_vec(r, &|r| r.next_u64() as u16).into_boxed_slice()) } else { None }))) },
+];
+
+const CASE_NAMES: [&str; N_BASE] = [
     "String",
     "Vec<u8>",
     "Vec<u32>",
@@ -312,7 +391,7 @@ pub fn run_case(case: usize, seed: u64) -> CaseOut {
     let steps = 1 + rng.usize_below(8);
     alloc::set_tracking(true);
     let base = alloc::live_bytes();
-    let mut p = Probe { case, name: CASE_NAMES[case], base, step: 0, out: &mut out, max_steps: steps };
+    let mut p = Probe { case, name: case_name(case), base, step: 0, out: &mut out, max_steps: steps };
     let _ = p.max_steps;
     match case {
         0 => {
@@ -565,7 +644,10 @@ pub fn run_case(case: usize, seed: u64) -> CaseOut {
             let v = if rng.chance(1, 5) { None } else { Some(Box::new((gen_osstring(rng), gen_cstring(rng)))) };
             p.exact(&v, (v.is_some() as usize, 0));
         }
-        _ => unreachable!(),
+        c => {
+            let f = EXTRA[c - N_BASE].1;
+            f(&mut p, rng, steps);
+        }
     }
     alloc::set_tracking(false);
     out
@@ -607,8 +689,8 @@ pub fn replay(v: &serde_json::Value, path: &str) -> i32 {
     let case = v["case"].as_u64().unwrap_or(0) as usize;
     let seed = v["case_seed"].as_u64().unwrap_or(0);
     let class = v["violation"].as_str().unwrap_or("").to_string();
-    println!("replaying {} (property C09, type {}, case seed {})", path, CASE_NAMES.get(case).copied().unwrap_or("?"), seed);
-    if case >= N_CASES {
+    println!("replaying {} (property C09, type {}, case seed {})", path, if case < n_cases() { case_name(case) } else { "?" }, seed);
+    if case >= n_cases() {
         eprintln!("harness error: bad case index");
         return 2;
     }
@@ -645,14 +727,14 @@ pub fn check_main(tier: &str, verif_seed: u64) -> i32 {
             let mut mism: BTreeMap<usize, (Mismatch, u64)> = BTreeMap::new();
             let mut samples: Vec<String> = Vec::new();
             let mut per_type: BTreeMap<&'static str, u64> = BTreeMap::new();
-            for case in 0..N_CASES {
+            for case in 0..n_cases() {
                 let mut i = t as u64;
                 while i < per_case {
                     let seed = derive(verif_seed, 9_000 + case as u64, i);
                     let out = run_case(case, seed);
                     checks += out.checks;
                     values += 1;
-                    *per_type.entry(CASE_NAMES[case]).or_insert(0) += out.checks;
+                    *per_type.entry(case_name(case)).or_insert(0) += out.checks;
                     digests.extend(out.nontrivial);
                     if let Some(m) = out.mismatch {
                         mism.entry(case).or_insert((m, seed));
@@ -742,10 +824,10 @@ pub fn check_main(tier: &str, verif_seed: u64) -> i32 {
         "coverage": {
             "evaluations": checks,
             "distinct_nontrivial": digests.len(),
-            "rule": "each evaluation compares heap_size() of one value with the simulated allocator's live-byte ledger after one step of a seeded build history (with_capacity / push / extend / insert / reserve / reserve_exact / shrink_to_fit / shrink_to / truncate / clear / pop at the top level and inside elements) for one of 46 concrete types; non-trivial = the value holds at least one byte from the allocator; distinct = distinct digests of (type, heap_size, top-level length, top-level capacity)",
+            "rule": "each evaluation compares heap_size() of one value with the simulated allocator's live-byte ledger after one step of a seeded build history (with_capacity / push / extend / insert / reserve / reserve_exact / shrink_to_fit / shrink_to / truncate / clear / pop at the top level and inside elements) for one of the concrete types listed under checks_per_type (every wrapper around owning types is measured standalone, as Vec element and as boxed-slice element, so that the per-value and both bulk helper paths are exercised); non-trivial = the value holds at least one byte from the allocator; distinct = distinct digests of (type, heap_size, top-level length, top-level capacity)",
             "samples": samples,
             "values_built": values,
-            "types": N_CASES,
+            "types": n_cases(),
             "checks_per_type": per_type,
             "runs_per_hour": if wall > 0.0 { (values as f64 / wall * 3600.0) as u64 } else { 0 },
             "fault_kinds": {},
@@ -764,7 +846,7 @@ pub fn check_main(tier: &str, verif_seed: u64) -> i32 {
         eprintln!("harness error: cannot write evidence");
         return 2;
     }
-    println!("C09 {}: {} values of {} types, {} conservation checks, {} distinct non-trivial shapes, {:.1}s; violations {}", tier, values, N_CASES, checks, digests.len(), wall, violations);
+    println!("C09 {}: {} values of {} types, {} conservation checks, {} distinct non-trivial shapes, {:.1}s; violations {}", tier, values, n_cases(), checks, digests.len(), wall, violations);
     if violations > 0 {
         1
     } else {
